@@ -103,19 +103,35 @@ struct RefCycle {
         for (int i = 0; i < post; i++)
             smooth0(x, rhs0);
     }
+    // The discretised right-hand sides of ALL levels, built here from the problem data with the solver's two per-level
+    // routines (sample the source/boundary data on the finest level, inject node values down, discretise each level):
+    // which levels setup() chose to equip with a right-hand side is exactly what the reference must not depend on.
+    std::vector<Vector<double>> ownRhs()
+    {
+        std::vector<Vector<double>> f;
+        for (int d = 0; d < nlev; d++)
+            f.push_back(zeros(n(d)));
+        GMGPolarVerifAccess::buildRhs(g, L[0], f[0]);
+        for (int d = 0; d + 1 < nlev; d++)
+            I.applyInjection(L[d], L[d + 1], f[d + 1], f[d]);
+        for (int d = 0; d < nlev; d++)
+            GMGPolarVerifAccess::discretizeRhs(g, L[d], f[d]);
+        return f;
+    }
     // nested iteration (full multigrid start-up): returns the starting approximation on level 0
     Vector<double> fmgStart(int fmgCycle, int fmgIts, bool extrapolated)
     {
-        Vector<double> x = L[nlev - 1].rhs();
+        const std::vector<Vector<double>> F = ownRhs();
+        Vector<double> x = F[nlev - 1];
         L[nlev - 1].directSolveInPlace(x);
         for (int lev = nlev - 1; lev > 0; lev--) {
             Vector<double> xf = zeros(n(lev - 1));
             I.applyFMGInterpolation(L[lev], L[lev - 1], xf, x);
             for (int it = 0; it < fmgIts; it++) {
                 if (lev - 1 == 0 && extrapolated)
-                    exCycle(fmgCycle, xf, L[0].rhs(), L[1].rhs());
+                    exCycle(fmgCycle, xf, F[0], F[1]);
                 else
-                    cycle(fmgCycle, lev - 1, xf, L[lev - 1].rhs());
+                    cycle(fmgCycle, lev - 1, xf, F[lev - 1]);
             }
             x = xf;
         }
